@@ -183,6 +183,9 @@ class System(ListeningSystem):
 
         name = self.functions.get(command)
         if name is not None:
+            if driver is not None and not 0 <= driver < len(self.drivers):
+                # No USD with this address on the line: nobody answers
+                return True
             params = [driver, byte_start, [ord(x) for x in cparams]]
             method = getattr(self, name)
             t0 = time.time()
